@@ -40,18 +40,58 @@ OTHER than the spool is, in the final world, bound to a file whose DURABLE conte
 received or as rewritten by label / add-header.  (A rule set without a move - label / add-header /
 exec / reject only - rewrites or pipes the spool copy, which the cleanup then removes: status 0 or 1,
 nothing stored; so does a discard, and `-d`.  These are the cases the hypotheses exclude.)  Hypotheses: `-` was given, not `-n`, exactly one `stdin` block (any number
-of `maildir` blocks), descriptor 0 holds `input`, `mkdtemp` returns a fresh directory; and the rule tree of the
-`stdin` block asks the operating system nothing (`Proofs.asksFree`: no `command`, `isdirectory`, file-time `date`
-condition) - `Delivered` speaks about the verdict of the pure evaluator, which is the run's verdict only then
-(for rule trees with such conditions the statements that do not mention the verdict hold: `C04_stdin_spool_removed`,
-`C04_stdin_status`, `C04_stdin_spool_complete`). -/
+of `maildir` blocks), descriptor 0 holds `input`, `mkdtemp` returns a fresh directory.
+
+The rules are evaluated inside the run: `command`, `isdirectory` and file-time `date` conditions ask the operating system
+(`Model.evalP`), and faults may hit those calls too.  `Proofs.Delivered` therefore speaks about the verdict
+`Proofs.World.stdinVerdictA … as` for SOME answers `as` (the answers of this run); for a rule tree without such conditions the
+answers are irrelevant and the verdict is the pure `stdinVerdict` (`C02_stdin_exit0_pure`); `C02_stdin_exit0_stored` is the
+consequence that does not mention the answers. -/
 theorem C02_stdin_exit0 (env : PEnv) (orc : EvalOracles) (conf : List ConfBlock) (files : Files) (input : Bytes) (expr : Expr)
     (w : World) (plan : Plan) (hm : env.stdinMode = true) (hs : env.syntaxOnly = false)
     (hc : Proofs.World.stdinExprs conf = [expr]) (hin : Proofs.World.StdinIs w input)
-    (hfresh : Proofs.World.SpoolFresh env w) (hfree : Proofs.asksFree expr = true) :
+    (hfresh : Proofs.World.SpoolFresh env w) :
     let r := runPlan plan (mainP env orc true conf files input) w 0 []
     r.1.1 = 0 → Proofs.Delivered env orc expr input r.2.1 :=
-  Proofs.stdin_exit0 env orc conf files input expr w plan hm hs hc hin hfresh hfree
+  Proofs.stdin_exit0 env orc conf files input expr w plan hm hs hc hin hfresh
+
+/-- **Exit status 0 means stored**, without mentioning the answers: if - WHATEVER the operating system answers to the
+questions of evaluation - the rules either fail or deliver (`Proofs.DeliversV`: an action list without discard, with a
+move/flag/flags action, no destination the spool; e.g. `stdin { match command "c" move "A"  match all move "B" }`), then
+under every fault plan exit status 0 of a real run implies that some entry of a directory other than the spool is bound to a
+file whose DURABLE content is the message as received or as rewritten by the label / add-header actions of one of these
+verdicts. -/
+theorem C02_stdin_exit0_stored (env : PEnv) (orc : EvalOracles) (conf : List ConfBlock) (files : Files) (input : Bytes) (expr : Expr)
+    (w : World) (plan : Plan) (hm : env.stdinMode = true) (hs : env.syntaxOnly = false) (hdry : env.dryrun = false)
+    (hc : Proofs.World.stdinExprs conf = [expr]) (hin : Proofs.World.StdinIs w input)
+    (hfresh : Proofs.World.SpoolFresh env w)
+    (hall : ∀ name0 fl as, flagsParse name0 = some fl →
+      Proofs.World.stdinVerdictA env orc expr input (Proofs.World.spoolPath env ++ [47] ++ name0) fl as = .failed ∨
+      Proofs.DeliversV env (Proofs.World.stdinVerdictA env orc expr input (Proofs.World.spoolPath env ++ [47] ++ name0) fl as))
+    (h0 : (runPlan plan (mainP env orc true conf files input) w 0 []).1.1 = 0) :
+    ∃ d n fid f, d ≠ Proofs.World.spoolPath env ∧
+      (runPlan plan (mainP env orc true conf files input) w 0 []).2.1.lookup d n = some fid ∧
+      (runPlan plan (mainP env orc true conf files input) w 0 []).2.1.file fid = some f ∧
+      (f.durable = input ∨ ∃ name0 fl as ml m',
+        Proofs.World.stdinVerdictA env orc expr input (Proofs.World.spoolPath env ++ [47] ++ name0) fl as = .actions ml m' ∧
+        f.durable = (messageWrite m').1) :=
+  Proofs.delivered_copy hdry hall (C02_stdin_exit0 env orc conf files input expr w plan hm hs hc hin hfresh h0)
+
+/-- For a rule tree that asks the operating system nothing the verdict in `Delivered` is the verdict of the pure evaluator. -/
+theorem C02_stdin_exit0_pure (env : PEnv) (orc : EvalOracles) (expr : Expr) (hfree : Proofs.asksFree expr = true)
+    (input path : Bytes) (fl : MFlags) (as : List SysAns) :
+    Proofs.World.stdinVerdictA env orc expr input path fl as = Proofs.World.stdinVerdict env orc expr input path fl :=
+  Proofs.World.stdinVerdictA_asksFree env orc expr hfree input path fl as
+
+example : Proofs.asksFree Proofs.StdinExample.expr0 = true := by decide
+
+/-- Non-vacuity of the hypothesis `hall` of `C02_stdin_exit0_stored` on the example, for the name the spool file gets: whatever
+the answers are, the verdict delivers (Boolean form `deliversB` of `Proofs.DeliversV`). -/
+example (as : List SysAns) : Proofs.StdinExample.deliversB (Proofs.World.spoolPath Proofs.StdinExample.env0)
+    (Proofs.World.stdinVerdictA Proofs.StdinExample.env0 Proofs.StdinExample.orc0 Proofs.StdinExample.expr0
+      Proofs.StdinExample.input0 Proofs.StdinExample.path0 MFlags.empty as) = true := by
+  rw [Proofs.World.stdinVerdictA_asksFree _ _ _ (by decide)]
+  exact Proofs.StdinExample.ex_delivers
 
 /-! Non-vacuity: the hypotheses hold for a 10-byte message, TMPDIR `/tmp` and the configuration
 `stdin { match all move "/m/inbox" }` (Proofs/WorldStdinExample); for the name the spool file gets
@@ -65,7 +105,7 @@ example :
     r.1.1 = 0 → Proofs.Delivered Proofs.StdinExample.env0 Proofs.StdinExample.orc0 Proofs.StdinExample.expr0
       Proofs.StdinExample.input0 r.2.1 :=
   C02_stdin_exit0 _ _ _ _ _ _ _ _ rfl rfl Proofs.StdinExample.ex_stdinExprs Proofs.StdinExample.ex_stdinIs
-    Proofs.StdinExample.ex_fresh (by decide)
+    Proofs.StdinExample.ex_fresh
 
 example : Proofs.StdinExample.deliversB (Proofs.World.spoolPath Proofs.StdinExample.env0)
     (Proofs.World.stdinVerdict Proofs.StdinExample.env0 Proofs.StdinExample.orc0 Proofs.StdinExample.expr0
